@@ -294,7 +294,7 @@ theorem good_act {imm : Imm} {prog : List MStep} {ph : Phase} {pc : Nat} {ρ : N
         simp only [Bool.and_eq_true, beq_iff_eq] at hc
         exact ⟨hc.1, ⟨fuel, _, hc.2, habs⟩, hact⟩
       | realloc r p n => simp at hc
-      | memset d v n => simp at hc
+      | memset p off v n => simp at hc
       | abort => simp at hc
 
 /-- once the mutex has been released, the rest of a checked operation does not touch the descriptor -/
